@@ -8,6 +8,7 @@ import (
 	"math"
 	"math/big"
 	"strconv"
+	"unicode/utf8"
 
 	"github.com/ohler55/slip"
 	"golang.org/x/text/cases"
@@ -155,7 +156,11 @@ func (c *control) readDir() {
 			}
 			params = append(params, p)
 		case '\'':
-			p := c.readParam()
+			// The parameter is the one character after the quote whatever it
+			// is, also when it is a directive character as in ~6,'*d.
+			_, n := utf8.DecodeRune(c.str[c.pos:c.end])
+			p := c.str[c.pos : c.pos+n]
+			c.pos += n
 			params = append(params, slip.ReadCharacter(p))
 		case '-', '0', '1', '2', '3', '4', '5', '6', '7', '8', '9':
 			c.pos--
